@@ -6,10 +6,11 @@
 //!       edge-set oracle for neighbors/degree run on the implementation's own outputs.
 //!  (ii) concurrent: 2..8 real threads under `nverif::sched::run_threads`; the yield trace of every
 //!       real operation must equal the model's atomic step list under the same schedule, results and
-//!       final image must equal the model's; the Lean witness schedules of the two remaining races
+//!       final image must equal the model's; the Lean witness schedules of the two remaining (known) races
 //!       are replayed deterministically, the schedules of the three races fixed by the list lock
-//!       (/repo 81b9c5b4) are followed as far as the lock allows (regression); seeded random
-//!       schedules with the WF monitor at quiescence.  The scheduler's `choose` mirrors the list
+//!       (/repo 81b9c5b4) and of the create_node / create_edge race fixed by /repo e23bf6c3 (lists
+//!       written before the node record) are followed as far as the code allows (regression, these
+//!       directed cases run first); seeded random schedules with the WF monitor at quiescence.  The scheduler's `choose` mirrors the list
 //!       lock (`LockMirror`) so that it does not grant a thread that would run into a held stripe.
 use graph_engine::{Direction, EdgeInput, GraphEngine, GraphError, NodeInput, Pagination, PropertyValue};
 use nverif::sched::{run_threads, Step};
@@ -707,20 +708,56 @@ fn classify(kind: &str, detail: &str, ops: &[Op], im: &Image, edges: &HashMap<u6
     }
 }
 
-/// Breaks that involve an id handed out during the concurrent phase (`> nn0` / `> ne0`):
-///  * a node created in the phase is an endpoint of the broken edge / owns the list: `create_node` stores
-///    the node record first and initialises `node:N:out` / `node:N:in` afterwards, wiping what a
-///    `create_edge` that already saw the node has appended;
-///  * an edge created in the phase that some thread deletes: `create_edge` stores the record first and
-///    appends the list entries afterwards, `delete_edge` in between removes the record only.
-fn classify_fresh(kind: &str, detail: &str, ops: &[Op], im: &Image, edges: &HashMap<u64, (u64, u64, bool)>, nn0: u64, ne0: u64) -> Option<String> {
+/// node / edge ids a broken WF clause talks about: (owner of the list, edge id, endpoints of that edge)
+fn break_ids(detail: &str, im: &Image, edges: &HashMap<u64, (u64, u64, bool)>) -> (Option<u64>, Option<u64>, Option<(u64, u64)>) {
     let num_after = |word: &str| -> Option<u64> {
         detail.split_whitespace().skip_while(|w| *w != word).nth(1).and_then(|s| s.trim_matches(|c: char| !c.is_ascii_digit()).parse().ok())
     };
     let edge_id = num_after("edge");
     let owner: Option<u64> = detail.strip_prefix("node:").and_then(|r| r.split(':').next()).and_then(|n| n.parse().ok());
     let ends = edge_id.and_then(|e| im.edges.get(&e).map(|r| (r.src, r.dst)).or_else(|| edges.get(&e).map(|(a, b, _)| (*a, *b))));
-    let creates_nodes = ops.iter().any(|o| matches!(o, Op::CNode { .. } | Op::BCN(_)));
+    (owner, edge_id, ends)
+}
+
+/// did some thread store the record `node:N` and LATER (in the same operation sequence) write one of
+/// the lists `node:N:out` / `node:N:in`?  That is `create_node` / `create_node_internal` initialising
+/// the lists after the node became visible (the order before /repo e23bf6c3).
+fn lists_written_after_record(trace: &[Step], n: u64) -> bool {
+    let rec = format!("node:{n}");
+    let (out, inn) = (format!("node:{n}:out"), format!("node:{n}:in"));
+    trace.iter().enumerate().any(|(i, s)| {
+        s.site == "store.put" && s.key == rec && trace[i + 1..].iter().any(|x| x.thread == s.thread && x.site == "store.put" && (x.key == out || x.key == inn))
+    })
+}
+
+/// Regression oracle of /repo e23bf6c3 (class graph_engine.create_node/lists_initialised_after_node_visible):
+/// the broken clause involves a node N handed out DURING the concurrent phase (`> nn0`: N is an endpoint
+/// of the broken edge or owns the list) AND the yield trace shows the creator of N writing one of N's
+/// lists after N's record: the empty list wiped what a `create_edge` that already saw the node had appended.
+fn classify_late_lists(kind: &str, detail: &str, trace: &[Step], im: &Image, edges: &HashMap<u64, (u64, u64, bool)>, nn0: u64) -> Option<String> {
+    if !matches!(kind, "edge_not_listed" | "dangling_entry" | "edge_endpoint_missing") {
+        return None;
+    }
+    let (owner, _, ends) = break_ids(detail, im, edges);
+    let mut involved: Vec<u64> = owner.into_iter().collect();
+    if let Some((a, b)) = ends {
+        involved.push(a);
+        involved.push(b);
+    }
+    if involved.iter().any(|n| *n > nn0 && lists_written_after_record(trace, *n)) {
+        Some("graph_engine.create_node/lists_initialised_after_node_visible".into())
+    } else {
+        None
+    }
+}
+
+/// Breaks that involve an EDGE id handed out during the concurrent phase (`> ne0`) that some thread
+/// deletes: `create_edge` stores the record first and appends the list entries afterwards,
+/// `delete_edge` in between removes the record only.  Outside the property's quantifier (the id of an
+/// edge whose create_edge has not returned can only be guessed): an observation, in the streams that
+/// deliberately name such ids.
+fn classify_fresh(kind: &str, detail: &str, ops: &[Op], im: &Image, edges: &HashMap<u64, (u64, u64, bool)>, ne0: u64) -> Option<String> {
+    let (_, edge_id, _) = break_ids(detail, im, edges);
     let deleted = |e: u64| ops.iter().any(|o| matches!(o, Op::DEdge(x) if *x == e) || matches!(o, Op::BDE(v) if v.contains(&e)));
     match kind {
         "edge_not_listed" | "dangling_entry" | "edge_endpoint_missing" => {
@@ -728,10 +765,6 @@ fn classify_fresh(kind: &str, detail: &str, ops: &[Op], im: &Image, edges: &Hash
                 if e > ne0 && deleted(e) {
                     return Some("graph_engine.delete_edge/edge_still_being_created".into());
                 }
-            }
-            let fresh_node = owner.map_or(false, |n| n > nn0) || ends.map_or(false, |(a, b)| a > nn0 || b > nn0);
-            if creates_nodes && fresh_node {
-                return Some("graph_engine.create_node/lists_initialised_after_node_visible".into());
             }
             None
         }
@@ -1084,8 +1117,8 @@ impl LockMirror {
         };
         match op {
             Op::CNode { .. } => {
-                // index_node_properties after the last put
-                let n = if site == "store.put" && key.ends_with(":in") { id_of(key.trim_end_matches(":in"), "node:") } else { None };
+                // index_node_properties after the last put (since /repo e23bf6c3: the node record)
+                let n = if site == "store.put" { id_of(key, "node:") } else { None };
                 (None, n.map(idx).into_iter().collect())
             }
             Op::CEdge { a, b, d, .. } => {
@@ -1360,6 +1393,8 @@ fn conc_case(
             edges.insert(id, (*from, *to, *d));
         }
     }
+    // largest node id handed out before the concurrent phase (setups only create)
+    let nn0 = image_of(&g).nodes.keys().copied().max().unwrap_or(0);
     let (oc, followed, avoided, edges) = run_conc(g.clone(), threads, sched, edges, rng);
     let all_ops: Vec<Op> = threads.iter().flatten().cloned().collect();
     if let Sched::Exact(script) = sched {
@@ -1368,7 +1403,7 @@ fn conc_case(
         rep.compare(&format!("{stream}.schedule_followed"), || threads_json(setup, threads, &oc), if ok { "followed" } else { "deviated" }, "followed");
     }
     if let Sched::Prefer(_) = sched {
-        rep.hit(if followed { "regress.old_schedule_still_possible" } else { "regress.old_schedule_stopped_by_list_lock" });
+        rep.hit(if followed { "regress.old_schedule_still_possible" } else { "regress.old_schedule_no_longer_possible" });
     }
     if std::env::var("NVERIF_DEBUG_BLOCK").is_ok() {
         let mut was: Vec<usize> = Vec::new();
@@ -1452,9 +1487,25 @@ fn conc_case(
     // ---- oracle: WF at quiescence
     let mut classes = Vec::new();
     for (kind, detail) in &breaks {
-        // candidate classes (reported as observations until the coordinator has decided): breaks that
-        // involve a node / edge id handed out DURING the concurrent phase
-        if let Some(c) = fresh.and_then(|(nn0, ne0)| classify_fresh(kind, detail, &all_ops, &oc.image, &edges, nn0, ne0)) {
+        // regression oracle of /repo e23bf6c3, every stream: a node created during the phase whose lists
+        // its creator wrote after the record
+        if let Some(c) = classify_late_lists(kind, detail, &oc.trace, &oc.image, &edges, nn0) {
+            if !classes.contains(&c) {
+                classes.push(c.clone());
+                let n = per_class.entry(c.clone()).or_insert(0);
+                *n += 1;
+                rep.hit(&format!("wf_break.{c}"));
+                if *n <= 2 {
+                    let mut j = threads_json(setup, threads, &oc);
+                    j["stream"] = json!(stream);
+                    rep.violation(&c, &format!("graph not well-formed at quiescence: {kind}: {detail} (the creator of the node wrote the node's list after the node record)"), j);
+                }
+            }
+            continue;
+        }
+        // outside the property's quantifier (observation): a break that involves an EDGE id handed out
+        // DURING the concurrent phase that some thread deletes
+        if let Some(c) = fresh.and_then(|(_, ne0)| classify_fresh(kind, detail, &all_ops, &oc.image, &edges, ne0)) {
             if !classes.contains(&c) {
                 classes.push(c.clone());
                 let n = per_class.entry(c.clone()).or_insert(0);
@@ -1638,6 +1689,109 @@ fn main() {
     };
     let scale: u64 = if args.thorough { 10 } else { 1 };
 
+    // ---------------- (0) directed cases, first on every run
+    let mut per_class: BTreeMap<String, u32> = BTreeMap::new();
+    let mut wr = root.fork("witness");
+    let n2 = vec![Op::CNode { l: 0, v: 0 }, Op::CNode { l: 0, v: 0 }];
+    let e12 = Op::CEdge { a: 1, b: 2, d: true, ty: 0, v: 0 };
+    // (0-a) regression of /repo e23bf6c3 (class graph_engine.create_node/lists_initialised_after_node_visible):
+    // Props.create_node_create_edge_race_old_witness is a schedule of the code BEFORE that commit
+    // (create_node stores node:3, create_edge(1,3) runs to completion, create_node then writes the two
+    // empty lists).  The scheduler follows it as far as the code allows: with the lists written first
+    // create_edge either does not see node 3 (NodeNotFound) or finds lists that are not written again.
+    // Variants: undirected edge (both lists of node 3), the new node as source, the batch call
+    // (create_node_internal), two creators, the edge created by batch_create_edges.  Any WF break is a
+    // violation; a break on a node whose creator wrote a list after the record gets the class above.
+    {
+        let cn = Op::CNode { l: 0, v: 0 };
+        let old_sched: Vec<usize> = vec![0, 0, 1, 1, 1, 1, 1, 1, 1, 1, 1, 1, 1, 1, 0, 0];
+        let cases: Vec<(&str, Vec<Vec<Op>>, Vec<usize>)> = vec![
+            ("regress.create_node_vs_create_edge", vec![vec![cn.clone()], vec![Op::CEdge { a: 1, b: 3, d: true, ty: 0, v: 0 }]], vec![0, 0, 1, 1, 1, 1, 1, 1, 1, 1, 0, 0]),
+            ("regress.create_node_vs_create_edge.undirected", vec![vec![cn.clone()], vec![Op::CEdge { a: 1, b: 3, d: false, ty: 0, v: 0 }]], old_sched.clone()),
+            ("regress.create_node_vs_create_edge.new_node_is_source", vec![vec![cn.clone()], vec![Op::CEdge { a: 3, b: 1, d: true, ty: 1, v: 0 }]], old_sched.clone()),
+            ("regress.create_node_vs_create_edge.self_loop", vec![vec![cn.clone()], vec![Op::CEdge { a: 3, b: 3, d: true, ty: 0, v: 0 }]], old_sched.clone()),
+            ("regress.batch_create_nodes_vs_create_edge", vec![vec![Op::BCN(vec![(0, 0)])], vec![Op::CEdge { a: 1, b: 3, d: true, ty: 0, v: 0 }]], vec![0, 0, 1, 1, 1, 1, 1, 1, 1, 1, 0, 0]),
+            // second item of the batch: node 4 becomes visible after node 3 is complete
+            ("regress.batch_create_nodes_vs_create_edge.second_item", vec![vec![Op::BCN(vec![(0, 0), (1, 1)])], vec![Op::CEdge { a: 4, b: 3, d: false, ty: 0, v: 0 }]], vec![0, 0, 0, 0, 0, 1, 1, 1, 1, 1, 1, 1, 1, 1, 1, 1, 1, 0, 0]),
+            ("regress.create_node_vs_batch_create_edges", vec![vec![cn.clone()], vec![Op::BCE(vec![(1, 3, true, 0, 0), (3, 2, false, 0, 0)])]], (0..2).chain(std::iter::repeat(1).take(30)).collect()),
+            // two creators, two edge writers on the ids they are about to hand out
+            (
+                "regress.two_create_nodes_vs_create_edges",
+                vec![vec![cn.clone()], vec![cn.clone()], vec![Op::CEdge { a: 3, b: 4, d: false, ty: 0, v: 0 }], vec![Op::CEdge { a: 4, b: 3, d: true, ty: 0, v: 0 }]],
+                vec![0, 1, 0, 1, 2, 3, 2, 3, 2, 3, 2, 3, 2, 3, 2, 3, 2, 3, 2, 3, 2, 3, 2, 3, 2, 3],
+            ),
+        ];
+        for (name, threads, sc) in &cases {
+            let classes = conc_case(name, &n2, threads, Sched::Prefer(sc), &mut m, &mut rep, &mut wr, &mut per_class, None, None);
+            for c in &classes {
+                rep.hit(&format!("regress.broken.{c}"));
+            }
+            if classes.is_empty() {
+                rep.hit("regress.create_node.ends_node_not_found_or_well_formed");
+            }
+        }
+        // the same thread sets with the creator granted k store calls before the edge writer runs to
+        // completion (k = 0..3: before the first list, between the lists, before and after the record)
+        for k in 0..=3usize {
+            for und in [false, true] {
+                let sc: Vec<usize> = std::iter::repeat(0).take(1 + k).chain(std::iter::repeat(1).take(14)).collect();
+                let threads = vec![vec![cn.clone()], vec![Op::CEdge { a: 1, b: 3, d: !und, ty: 0, v: 0 }]];
+                let classes = conc_case("regress.create_node_vs_create_edge.cut", &n2, &threads, Sched::Prefer(&sc), &mut m, &mut rep, &mut wr, &mut per_class, None, None);
+                for c in &classes {
+                    rep.hit(&format!("regress.broken.{c}"));
+                }
+                rep.hit(&format!("regress.create_node.cut_after_{k}_store_calls"));
+            }
+        }
+    }
+    lap("directed create_node regression done");
+    // ---------------- (0-b) Lean witness schedules replayed on the real engine (the two KNOWN races,
+    //                  on every run), then the schedules of the three races fixed by the list lock
+    // Props.create_edge_delete_node_race_witness
+    conc_case(
+        "witness.create_edge_vs_delete_node",
+        &n2,
+        &[vec![e12.clone()], vec![Op::DNode(2)]],
+        Sched::Exact(&[0, 0, 0, 1, 1, 1, 1, 1, 1, 1, 0, 0, 0, 0, 0]),
+        &mut m, &mut rep, &mut wr, &mut per_class,
+        Some("graph_engine.create_edge/edge_to_deleted_node"),
+        None,
+    );
+    // Props.update_edge_delete_edge_race_witness
+    let n2e = vec![n2[0].clone(), n2[1].clone(), e12.clone()];
+    conc_case(
+        "witness.update_edge_vs_delete_edge",
+        &n2e,
+        &[vec![Op::UEdge { e: 1, v: 9 }], vec![Op::DEdge(1)]],
+        Sched::Exact(&[0, 0, 0, 1, 1, 1, 1, 1, 1, 1, 0]),
+        &mut m, &mut rep, &mut wr, &mut per_class,
+        Some("graph_engine.update_edge/resurrects_deleted_edge"),
+        None,
+    );
+    // regression: Props.rmw_lost_update_witness / rmw_lost_removal_witness are schedules of the code
+    // BEFORE the list lock; the scheduler follows them as far as the lock allows. Any WF break here is
+    // a violation (the classes add_edge_to_list/lost_adjacency_entry, remove_edge_from_list/lost_removal
+    // are no longer known findings).
+    let n2ee = vec![n2[0].clone(), n2[1].clone(), e12.clone(), e12.clone()];
+    let und = Op::CEdge { a: 1, b: 2, d: false, ty: 0, v: 0 };
+    let regress: Vec<(&str, &[Op], Vec<Vec<Op>>, Vec<usize>)> = vec![
+        ("regress.rmw_lost_update", &n2, vec![vec![e12.clone()], vec![e12.clone()]], vec![0, 1, 0, 1, 0, 1, 0, 1, 0, 1, 0, 1, 0, 0, 1, 1]),
+        ("regress.rmw_lost_removal", &n2ee, vec![vec![Op::DEdge(1)], vec![Op::DEdge(2)]], vec![0, 1, 0, 1, 0, 1, 0, 1, 0, 0, 0, 1, 1, 1]),
+        // the same with strict alternation, undirected edges (four lists each), three threads, and
+        // create against delete on one hub
+        ("regress.rmw_alternating", &n2, vec![vec![und.clone()], vec![und.clone()], vec![e12.clone()]], (0..60).map(|i| i % 3).collect()),
+        ("regress.rmw_create_vs_delete", &n2ee, vec![vec![e12.clone(), Op::DEdge(2)], vec![Op::DEdge(1), und.clone()]], (0..40).map(|i| i % 2).collect()),
+    ];
+    for (name, setup, threads, sc) in &regress {
+        let mut none = BTreeMap::new();
+        let classes = conc_case(name, setup, threads, Sched::Prefer(sc), &mut m, &mut rep, &mut wr, &mut none, None, None);
+        for c in classes {
+            rep.hit(&format!("regress.broken.{c}"));
+        }
+    }
+
+    lap("directed cases done");
+
     // ---------------- (i) sequential differential
     let mut r = root.fork("seq");
     let mut qr = root.fork("seq.queries");
@@ -1751,69 +1905,9 @@ fn main() {
     }
 
     lap("sequential done");
-    // ---------------- (ii-a) Lean witness schedules replayed on the real engine (the two KNOWN races
-    //                  first, on every run), then the schedules of the three races fixed by the list lock
-    let mut per_class: BTreeMap<String, u32> = BTreeMap::new();
-    let mut wr = root.fork("witness");
-    let n2 = vec![Op::CNode { l: 0, v: 0 }, Op::CNode { l: 0, v: 0 }];
-    let e12 = Op::CEdge { a: 1, b: 2, d: true, ty: 0, v: 0 };
-    // Props.create_edge_delete_node_race_witness
-    conc_case(
-        "witness.create_edge_vs_delete_node",
-        &n2,
-        &[vec![e12.clone()], vec![Op::DNode(2)]],
-        Sched::Exact(&[0, 0, 0, 1, 1, 1, 1, 1, 1, 1, 0, 0, 0, 0, 0]),
-        &mut m, &mut rep, &mut wr, &mut per_class,
-        Some("graph_engine.create_edge/edge_to_deleted_node"),
-        None,
-    );
-    // Props.update_edge_delete_edge_race_witness
-    let n2e = vec![n2[0].clone(), n2[1].clone(), e12.clone()];
-    conc_case(
-        "witness.update_edge_vs_delete_edge",
-        &n2e,
-        &[vec![Op::UEdge { e: 1, v: 9 }], vec![Op::DEdge(1)]],
-        Sched::Exact(&[0, 0, 0, 1, 1, 1, 1, 1, 1, 1, 0]),
-        &mut m, &mut rep, &mut wr, &mut per_class,
-        Some("graph_engine.update_edge/resurrects_deleted_edge"),
-        None,
-    );
-    // regression: Props.rmw_lost_update_witness / rmw_lost_removal_witness are schedules of the code
-    // BEFORE the list lock; the scheduler follows them as far as the lock allows. Any WF break here is
-    // a violation (the classes add_edge_to_list/lost_adjacency_entry, remove_edge_from_list/lost_removal
-    // are no longer known findings).
-    let n2ee = vec![n2[0].clone(), n2[1].clone(), e12.clone(), e12.clone()];
-    let und = Op::CEdge { a: 1, b: 2, d: false, ty: 0, v: 0 };
-    let regress: Vec<(&str, &[Op], Vec<Vec<Op>>, Vec<usize>)> = vec![
-        ("regress.rmw_lost_update", &n2, vec![vec![e12.clone()], vec![e12.clone()]], vec![0, 1, 0, 1, 0, 1, 0, 1, 0, 1, 0, 1, 0, 0, 1, 1]),
-        ("regress.rmw_lost_removal", &n2ee, vec![vec![Op::DEdge(1)], vec![Op::DEdge(2)]], vec![0, 1, 0, 1, 0, 1, 0, 1, 0, 0, 0, 1, 1, 1]),
-        // the same with strict alternation, undirected edges (four lists each), three threads, and
-        // create against delete on one hub
-        ("regress.rmw_alternating", &n2, vec![vec![und.clone()], vec![und.clone()], vec![e12.clone()]], (0..60).map(|i| i % 3).collect()),
-        ("regress.rmw_create_vs_delete", &n2ee, vec![vec![e12.clone(), Op::DEdge(2)], vec![Op::DEdge(1), und.clone()]], (0..40).map(|i| i % 2).collect()),
-    ];
-    for (name, setup, threads, sc) in &regress {
-        let mut none = BTreeMap::new();
-        let classes = conc_case(name, setup, threads, Sched::Prefer(sc), &mut m, &mut rep, &mut wr, &mut none, None, None);
-        for c in classes {
-            rep.hit(&format!("regress.broken.{c}"));
-        }
-    }
-
     // ---------------- (ii-a') ids handed out DURING the concurrent phase (guessed, or discovered by a scan):
-    //                  the two Lean witness schedules first, then seeded random programs x schedules.
-    //                  Breaks attributed to such ids are CANDIDATE classes: observations, not violations.
+    //                  seeded random programs x schedules (the directed create_node cases ran first).
     let mut cand: BTreeMap<String, u32> = BTreeMap::new();
-    // Props.create_node_create_edge_race_witness
-    conc_case(
-        "witness.create_node_vs_create_edge",
-        &n2,
-        &[vec![Op::CNode { l: 0, v: 0 }], vec![Op::CEdge { a: 1, b: 3, d: true, ty: 0, v: 0 }]],
-        Sched::Exact(&[0, 0, 1, 1, 1, 1, 1, 1, 1, 1, 0, 0]),
-        &mut m, &mut rep, &mut wr, &mut cand,
-        Some("graph_engine.create_node/lists_initialised_after_node_visible"),
-        Some((2, 0)),
-    );
     // Props.delete_edge_of_edge_in_creation_race_witness needs delete_edge to take the lock of the first
     // list between create_edge's `store.put edge:E` and its acquisition of that lock: the acquisition is
     // not a yield point (the model takes locks lazily and therefore has that interleaving), so the
@@ -1857,7 +1951,8 @@ fn main() {
         "seq.batch_update_nodes.ok", "seq.batch_update_nodes.err_batch_invalid", "seq.reopen.ok",
         "seq.big_hub.batch_create_nodes_parallel_path",
         "conc.threads.2", "conc.threads.8",
-        "witness_reproduced.graph_engine.create_node/lists_initialised_after_node_visible",
+        "regress.create_node.ends_node_not_found_or_well_formed",
+        "regress.create_node.cut_after_0_store_calls", "regress.create_node.cut_after_3_store_calls",
 
     ]
     .iter()
@@ -1865,7 +1960,8 @@ fn main() {
     .collect();
     rep.note("add_edge_to_list / remove_edge_from_list run under edge_list_lock(key) (a stripe of index_locks chosen by a hash of the list key, /repo 81b9c5b4); the model has one lock per list key (acquire / release are silent steps, a thread at the acquire of a held lock is not runnable); two keys sharing a stripe only remove interleavings. The lock is invisible in the yield traces: the correspondence is that every real schedule is accepted by the locked model (a grant to a non-runnable model thread would show as a trace disagreement)");
     rep.note("the scheduler's choose mirrors the list lock (LockMirror) and does not grant a thread that would wait for a held stripe; steps where a thread nevertheless waited on a real lock (index stripes shared with list keys, wrong guesses) are counted in conc.steps_with_a_thread_blocked_on_a_real_lock");
-    rep.note("candidate classes (observations, not violations, until listed or fixed): graph_engine.create_node/lists_initialised_after_node_visible (Props.create_node_create_edge_race_witness, replayed in stream witness.create_node_vs_create_edge; proposed fix /verif/proposed/C05-create-node-lists-before-record.diff) and graph_engine.delete_edge/edge_still_being_created (Props.delete_edge_of_edge_in_creation_race_witness; needs a preemption between create_edge's store.put of the record and its first lock acquisition, which is not a yield point: not replayable under the scheduler); stream conc.fresh_ids runs programs that name ids handed out during the concurrent phase, batch calls included");
+    rep.note("create_node / create_node_internal write the node's two empty lists before the node record since /repo e23bf6c3 (model: createNodeFrom; the order before it: createNodeFromOld, Props.create_node_create_edge_race_old_witness). Regression oracle, every concurrent stream: a WF break on a node handed out during the concurrent phase whose creator's yield trace shows a list written after the record is the violation graph_engine.create_node/lists_initialised_after_node_visible; directed cases regress.create_node_vs_create_edge* / regress.batch_create_nodes_vs_create_edge* follow the old witness schedule as far as the code allows, first on every run, and must end in NodeNotFound or a well-formed store");
+    rep.note("outside the property's quantifier (observation, not violation): graph_engine.delete_edge/edge_still_being_created (Props.delete_edge_of_edge_in_creation_race_witness; needs a preemption between create_edge's store.put of the record and its first lock acquisition, which is not a yield point: not replayable under the scheduler; the id of an edge whose create_edge has not returned can only be guessed); stream conc.fresh_ids runs programs that name ids handed out during the concurrent phase, batch calls included");
     rep.note("a concurrent case is not compared with the model (conc.not_compared.node_id_order_not_scheduled, WF oracle still applied) when >= 2 threads create nodes, some thread waited on a real lock during the run, and the real results / traces / image differ from the model's in numbers only: the waiting thread resumes while the releasing thread is still running and the order of their node_counter.fetch_add is then not scheduled");
     rep.note("delete_node's >=100-edge path runs on rayon pool threads that the deterministic scheduler does not control; it is exercised only by the sequential stream (real concurrency, not schedule-controlled); since the list lock every such script must be well-formed (class graph_engine.delete_node/parallel_path_lost_removal is a regression oracle)");
     rep.note("not modelled: property/label index contents, constraints, weak-memory effects inside one TensorStore call; batch operations, add_label / remove_label and re-opening (GraphEngine::with_store over the same store) are exercised sequentially only");
